@@ -201,6 +201,9 @@ def gen_sig(seed, k):
     if k == 1: S, G, second, phase = 2, 1200, 2, "running"
     # corpus: ONE shutdown signal while a unit sits in the grace period of its timeout termination: it is killed at once
     if k == 2: S, G, second, phase = 2, 300, None, "terminating"
+    # corpus: the run is shut down during the setup script, which exits 0 on the signal: no test ever finishes, and the run is
+    # still a cancelled one (exit 100), not one in which "no tests were run"
+    if k == 3: S, G, second, phase = 15, 300, None, "script"
     gap2 = 250
     tests = []
     kinds = ["run_die", "run_ign", "run_late", "delay", "drain", "done", "run_ign", "run_retry"]
@@ -227,7 +230,7 @@ def gen_sig(seed, k):
         extra += TERM_OVERRIDE
         trig = ("TestSlow .*will_terminate=true", 1, 250)
     elif phase == "script":
-        sc.scripts.append(("s1", [f"ignore:{S}" if rng.random() < 0.5 else f"onsig:{S}:0:0", "child:20000", "hang"]))
+        sc.scripts.append(("s1", [(f"ignore:{S}" if rng.random() < 0.5 else f"onsig:{S}:0:0") if k != 3 else f"onsig:{S}:0:0", "child:20000", "hang"]))
         head = 'experimental = ["setup-scripts"]\n'
         extra += '[script.s1]\ncommand = ["@VSCRIPT@", "s1"]\n' + f'slow-timeout = {{ period = "60s", grace-period = "{G}ms" }}\n' + "[[profile.default.scripts]]\nfilter = 'all()'\nsetup = [\"s1\"]\n"
         trig = ("SetupScriptStarted", 1, 250)
